@@ -624,7 +624,7 @@ func c14GE(a, b int64) bool {
 var c14Transports = []string{"proxy", "nri", "reconciler"}
 
 func TestVerifC14Hook(t *testing.T) {
-	kit.Run(t, kit.Config{Property: "C14", Unit: "hook", Quick: 5000, Thorough: 100000,
+	kit.Run(t, kit.Config{Property: "C14", Unit: "hook", Quick: 5000, Thorough: 500000,
 		Rule: "one generated pod per case: 1-5 containers, batch-cpu/batch-memory request and limit each from {missing, 0, 1, 9, 10, 999, 1000, 1001, 10^6, 2^40} plus neighbours and random 1..4096 (request <= limit), some containers declaring nothing; marked BE by the QoS label, by the same key as an annotation only, or not BE (LS/LSR/LSE/SYSTEM/no label); spec annotation as the webhook writes it or absent; plugin configured through the real parseRuleForNodeSLO (cfs switch) and parseRuleForNodeMeta (ratio none/0.5/1/1.0001/1.5/2/4), in 40 % of the cases by a HISTORY of 2-4 node-metadata states (ratio absent / <=1 / >1 / changed, steps larger than the documented 0.01 update epsilon or exact repeats) and 1-3 NodeSLO states (switch flips) interleaved on the same instance, the oracle using only the last state of each, with the hooks also run and checked after every update in half of the histories; SetPodResources, SetContainerResources and the six single-value parts run on contexts built by FromProxy, FromNri and FromReconciler. distinct = (container count, sorted per-container unlimited pattern, clamp hits, ratio class, cfs switch, marking class, spec mode); non-trivial = BE-labelled pod with a visible spec and >= 2 containers in which a clamp, a ratio rounding or an unlimited propagation was exercised; evaluations = contexts checked"},
 		func(c *kit.Case) {
 			r := c.R
